@@ -5,3 +5,6 @@ open LhasaV.Props.C07
 #print axioms extract_iff
 #print axioms truncation_bad
 #print axioms check_dir
+#print axioms crc16_burst
+#print axioms crc_linear
+#print axioms single_bit_detected
